@@ -46,6 +46,10 @@ type Models struct {
 	// C14
 	Punished map[string]*punishment
 
+	// C13: how many power-changing operations each validator has seen (each may truncate once)
+	PowerOps    map[string]int
+	PowerOpsAll int // weight updates touch every holder
+
 	// relayer / bitcoin ledgers live in their own files
 	Rel *relModel
 	Btc *btcModel
@@ -73,7 +77,7 @@ type punishment struct {
 
 func newModels(w *World, genLock map[int]map[string]*big.Int, remain *big.Int) *Models {
 	m := &Models{w: w, Locked: map[string]*big.Int{}, Delivered: map[string]*big.Int{}, UnlockReq: map[uint64]*unlockReq{},
-		In: new(big.Int).Set(remain), PaidOut: new(big.Int), GenRemain: new(big.Int).Set(remain), Punished: map[string]*punishment{}}
+		In: new(big.Int).Set(remain), PaidOut: new(big.Int), GenRemain: new(big.Int).Set(remain), Punished: map[string]*punishment{}, PowerOps: map[string]int{}}
 	for _, locks := range genLock {
 		for tok, amt := range locks {
 			d := lockingtypes.TokenDenom(common.HexToAddress(tok))
@@ -232,7 +236,12 @@ func (w *World) oracleLocking(bi *BlockInfo) {
 	if bi.MsgOK && bi.ReqErr == nil {
 		for _, l := range bi.LockingReq.Locks {
 			addTo(m.Locked, denomOf(l.Token), l.Amount)
+			m.PowerOps[string(l.Validator.Bytes())]++
 		}
+		for _, u := range bi.LockingReq.Unlocks {
+			m.PowerOps[string(u.Validator.Bytes())]++
+		}
+		m.PowerOpsAll += len(bi.LockingReq.UpdateWeights)
 		// running holdings to decide which unlocks certainly exit
 		for _, u := range bi.LockingReq.Unlocks {
 			ur := &unlockReq{ID: u.Id, Val: u.Validator, Token: u.Token, Amount: new(big.Int).Set(u.Amount), ReqTime: b.Time, ReqHeight: b.Height, Exit: -1}
